@@ -89,7 +89,7 @@ def sim_run(name, behaviours, recycle=3, timeout=1):
         run = Run('X')
         sc = E.Scenario(tape, force_dedicated=True)
         sc.n = len(behaviours)
-        m = {'equal': 'equal', 'different': 'different', 'hang': 'worker_hang', 'exit': 'worker_abort', 'raises': 'player_raises'}
+        m = {'equal': 'equal', 'different': 'different', 'hang': 'worker_hang', 'exit': 'worker_abort', 'raises': 'operation_raises'}
         sc.behaviours = [m[b] for b in behaviours]
         sc.recycle, sc.timeout, sc.keep, sc.jitter, sc.queue_delay, sc.slow_start, sc.preempt = recycle, float(timeout), False, 4, 0.0, 0.0, 0.0
         sc.duplicates, sc.consume, sc.data_extractor = False, 'full', False
